@@ -176,6 +176,7 @@ def check(repo, res, tier):
             res.undecided("R-ALG(d1)", kcls.methods.get("diff_loss") or name, "derivatives", "cannot bring %s derivatives into canonical form: %s" % (name, e))
     res.floor("kernel methods brought to canonical form", n, 15)
     _check_shape_inputs(repo, res)
+    _check_dtype(repo, res)
     # residual is y - yhat (times w)
     base = repo.cls(M.M_LOSSTYPE, "Baseloss_Type")
     try:
@@ -270,3 +271,37 @@ def _check_shape_inputs(repo, res):
             res.check(ok, "R-SHAPEIN", f, tag, "%s.%s treats an (n,1) prediction like the (n,) vector" % (name, method),
                       "%s.%s %s: for one observed state BaseLoss passes an (n,1) column, so the derivative no longer lines up with the observations" % (name, method, why),
                       node=f.node)
+
+
+def _check_dtype(repo, res):
+    """the spread / weight arrays of a kernel must not take their dtype from the observations (count data are integers)"""
+    from ..rules.dtype import inheriting_allocations
+    from ..core.source import is_self_attr as _isa
+    res.rule("R-DTYPE", "arrays holding spread / weights / results do not inherit the (possibly integer) dtype of the observations")
+
+    def is_obs(e, df, node):
+        if _isa(e, "_y"):
+            return True
+        rts = df.roots(e, node)
+        return ("attr", "self._y") in rts or ("param", "y") in rts
+    n = 0
+    for name in KERNELS + ["Baseloss_Type"]:
+        kcls = repo.cls(M.M_LOSSTYPE, name)
+        for mname, f in sorted(kcls.methods.items()):
+            n += 1
+            hits = inheriting_allocations(f, is_obs)
+            for c, src in hits:
+                res.violated("R-DTYPE", f, "alloc@%s" % norm(c)[:50],
+                             "%s takes its dtype from the observations (%s): with integer-typed count data a non-integer spread / "
+                             "weight / result stored in it is silently truncated (e.g. k=1.5 becomes 1)" % (norm(c), norm(src)), node=c)
+            if not hits:
+                res.holds("R-DTYPE", f, "no-inherited-dtype", "no allocation inherits the dtype of the observations")
+    res.floor("kernel methods scanned for dtype inheritance", n, 20)
+    # positive control: the rule must recognise the idiom on a synthetic function
+    import ast as _ast
+    from ..core.source import FuncInfo
+    mod = repo.module(M.M_LOSSTYPE)
+    tree = _ast.parse("def _probe(self, sigma):\n    self._sigma = np.full_like(self._y, sigma)\n    return self._sigma\n")
+    probe = FuncInfo(mod, "Probe", "_probe", tree.body[0], "method")
+    if not inheriting_allocations(probe, is_obs):
+        res.undecided("R-DTYPE", mod.rel + "::positive-control", None, "the dtype rule no longer recognises np.full_like(self._y, value)")
